@@ -3,7 +3,8 @@
 proof:          lean/PdshVerif/Props/C04.lean (LTS of dsh()'s dispatcher/worker/condvar protocol, every
                 schedule, every number of spurious wake-ups; `while` variant bounded, `if` variant witness; section G:
                 the same for EVERY signalling discipline (Dsh/FanG.lean), incl. the witness that under `if` a wake-up
-                call made after the unlock breaks the bound without any spurious wake-up)
+                call made after the unlock breaks the bound without any spurious wake-up; section X: the bound for the
+                fanout IN USE = the setting, whatever RLIMIT_NOFILE is and also when pthread_create fails, Dsh/FanX.lean)
 correspondence: the unmodified dsh.c under the controlled scheduler (harness/sched) vs the same LTS,
                 compiled (`pdshmodel fan`): every event enabled, threadcount equal, enabled sets equal
 oracle:         monitors of the harness on observable events only: peak of (connects begun - teardowns
@@ -23,7 +24,10 @@ MANIFEST = dict(
          "runs FanG.step; the wait-for-room construct is a parameter: `if` as in the "
          "pinned source, `while` as repaired): in-flight <= fanout for every fanout >= 1, every N, every schedule and "
          "any number of spurious wake-ups (while variant), a decided counterexample for the `if` variant, and work "
-         "conservation.  The unmodified dsh.c runs under a controlled scheduler (every pthread/libc call wrapped at "
+         "conservation; section X (Dsh/FanX.lean, run by the acceptor outside relay mode): the prologue "
+         "_increase_nofile_limit never changes the fanout, so the bound holds for the setting under every descriptor "
+         "limit (harness keys nofile / nofile_soft: fanout in use and soft limit after dsh() compared with the model "
+         "function) and when pthread_create fails.  The unmodified dsh.c runs under a controlled scheduler (every pthread/libc call wrapped at "
          "link time, spurious wake-ups injected); each run's event trace must be accepted step by step by the same "
          "`step` function, with equal threadcount and equal enabled sets, and is judged by model-independent monitors.",
     design_ref="DESIGN.md section 5 C03/C04, appendix A.1",
